@@ -174,15 +174,19 @@ func init() {
 		passes := []passT{{1, true}}
 		if r.Tier == "thorough" {
 			bound, steps = 2, 30
-			passes = []passT{{2, false}, {1, true}}
+			passes = []passT{{1, true}, {2, false}}
 		}
 		r.Rule = fmt.Sprintf("%d termination scenarios (pods drainable / do-not-disrupt / PDB-blocked / stuck terminating / static / tolerating, volume attachments of drainable and undrainable pods, slow detach, pods that use their whole grace period, TGP none/60s/300s, registered or not, node NotReady, Node or NodeClaim deleted first) are driven for %d steps through the real node-termination controller, NodeClaim lifecycle controller (finalize) and eviction queue. "+
 			"The default history is a fair cycle of all enabled reconciles, then the environment's progress events (pod finished terminating, volume detached, instance terminated), then clock +6s; every history with <=%d deviations is explored, a deviation being any other enabled reconcile/event inserted, an environment event happening in the MIDDLE of a reconcile (before any one of its calls; in the thorough tier as a separate one-deviation pass) (incl. clock jumps, node NotReady, instance vanishing, PDB flip, user deleting the Node, controller restart) or a failed API/provider call (reads included). "+
 			"Oracle at the instant of every finalizer-removing write. non-trivial = distinct (scenario, history)", len(termScenarios), steps, bound)
 		r.Assumptions = []string{"controllers do not preempt each other inside a reconcile; the ENVIRONMENT may act before any API / provider call of a reconcile", "a Node whose NodeClaim object no longer exists is outside the statement"}
-		enum.RunEveryShard(r, int64(len(termScenarios)), func(i int64, l *ev.Local) {
-			sc := termScenarios[i]
-			for _, pass := range passes {
+		// passes outermost, cheapest first: every scenario is covered at the lower bound before the deeper pass starts, so a
+		// deadline cuts the deepest pass only (the evidence says which pass completed)
+		for pi, pass := range passes {
+			pass := pass
+			completed := true
+			enum.RunEveryShard(r, int64(len(termScenarios)), func(i int64, l *ev.Local) {
+				sc := termScenarios[i]
 				bound, interleave := pass.bound, pass.interleave
 				ex := &explore.Explorer{Bound: bound, MaxExecs: 400000, Stop: r.Expired, Shard: r.Shard, NShards: r.Shards}
 				ex.Exec = func(run *explore.Run) {
@@ -213,7 +217,13 @@ func init() {
 					l.Outcome("exploration-capped")
 					r.Exhaustive = false
 				}
+			})
+			if r.Expired() {
+				completed = false
 			}
-		})
+			if completed {
+				r.Extra["deepest_pass_completed"] = fmt.Sprintf("pass %d of %d: <=%d deviations, environment events inside a reconcile: %v", pi+1, len(passes), pass.bound, pass.interleave)
+			}
+		}
 	})
 }
